@@ -20,6 +20,34 @@ func checkC18(c *Check) {
 	c18Format(c)
 	c18SingleLine(c)
 	c18Bounce(c)
+	// the status a report gives for a recipient is the one recorded for THAT recipient in the attempt: a failure of a
+	// message-wide step (DATA, commit) is recorded for the recipients that were accepted, and only for them – recorded
+	// for the whole list it overwrites the refusal another recipient got at RCPT TO (the report then shows the DATA
+	// status for it, or, if the DATA failure was temporary, omits it) (C01.R2)
+	c.Rule("R13", "tryDelivery: the status the report shows for a recipient is the conversion of the error of the attempt in which it was given up (stored before the retry / give-up decision on every path) (C16.R3c)", 1)
+	{
+		sub := newCheck("C16", c.P, c.Tier)
+		sub.Rule("R3c", "", 0)
+		c16StatusFromThisAttempt(sub)
+		for _, o := range sub.obs {
+			if o.Rule == "R3c" {
+				c.Hold("R13", o.Key, o.posRaw, o.OK, o.Msg)
+			}
+		}
+	}
+	c.Rule("R12", "deliver: the error of Body / Commit is recorded for exactly the accepted recipients, the error of AddRcpt for exactly its recipient (a recipient's own refusal is what the report shows) (C01.R2)", 3)
+	{
+		sub := newCheck("C01", c.P, c.Tier)
+		c01Deliver(sub)
+		for _, o := range sub.obs {
+			if o.Rule == "R2" {
+				c.Hold("R12", o.Key, o.posRaw, o.OK, o.Msg)
+			}
+		}
+		for f := range sub.funcs {
+			c.SawFunc(f)
+		}
+	}
 	r := c.need("R1", queueRel, "Queue", "emitDSN")
 	c.Rule("R1", "FinalRecipient is the original-recipient-map entry of the failed recipient, or the recipient itself on a miss", 1)
 	c.Rule("R2", "the report lists exactly the failed recipients it was given, with the stored last error of each", 2)
